@@ -129,9 +129,14 @@ func (ex *Exec) execRangeSym(s *ast.RangeStmt, st *State, label string, sv *SymS
 			ex.declare(st, vobj, ex.zeroValue(vobj.Type()))
 		}
 	}
+	// the hidden index counts 0..len-1 in order (rangeidx() in invariants); the slice header was
+	// evaluated once, as in Go
+	idxLoc := ex.newLoc("range.idx", types.Typ[types.Int])
+	st.store[idxLoc] = ex.ts.BV(0, 64)
+	ex.rangeIdx = append(ex.rangeIdx, idxLoc)
+	defer func() { ex.rangeIdx = ex.rangeIdx[:len(ex.rangeIdx)-1] }()
 	pre := func(bs *State) {
-		k := ex.ts.Fresh("range.idx", BVSort(64))
-		ex.assume(bs, ex.ts.And(ex.ts.BVCmp(OpBVSle, ex.ts.BV(0, 64), k), ex.ts.BVCmp(OpBVSlt, k, sv.Len)))
+		k := ex.load(bs, idxLoc).(*Term)
 		// instantiate the universally quantified facts at the index of this iteration
 		nf := len(ex.facts)
 		for _, f := range ex.facts[:nf] {
@@ -146,8 +151,30 @@ func (ex *Exec) execRangeSym(s *ast.RangeStmt, st *State, label string, sv *SymS
 			bs.store[ex.cur().env.Lookup(vobj)] = ex.symSliceElem(bs, sv, k)
 		}
 	}
-	return ex.execLoopInv(s, nil, s.Body, nil, st, label, invs, havoc, true, pre)
+	synth := &synthLoop{
+		havoc: []*Loc{idxLoc},
+		head: func(h *State) {
+			k := ex.load(h, idxLoc).(*Term)
+			ex.assume(h, ex.ts.And(ex.ts.BVCmp(OpBVSle, ex.ts.BV(0, 64), k), ex.ts.BVCmp(OpBVSle, k, sv.Len)))
+		},
+		cond: func(h *State) *Term {
+			return ex.ts.BVCmp(OpBVSlt, ex.load(h, idxLoc).(*Term), sv.Len)
+		},
+		post: func(s2 *State) {
+			s2.store[idxLoc] = ex.ts.BVBin(OpBVAdd, ex.load(s2, idxLoc).(*Term), ex.ts.BV(1, 64))
+		},
+	}
+	return ex.execLoopInv(s, nil, s.Body, nil, st, label, invs, havoc, false, pre, synth)
 }
+
+// synthLoop describes the parts of a loop that have no syntax (the hidden index of a range).
+type synthLoop struct {
+	havoc []*Loc
+	head  func(h *State)
+	cond  func(h *State) *Term
+	post  func(s *State)
+}
+
 func (ex *Exec) symSliceIndex(st *State, sv *SymSliceV, idx *Term, p token.Pos) Value {
 	ok := ex.ts.BVCmp(OpBVUlt, idx, sv.Len)
 	ex.assert(st, "safety.index", ok, p, "index below the slice length")
@@ -319,7 +346,7 @@ func (ex *Exec) callExternalMore(name string, f *FuncV, args []Value, st *State,
 
 // execLoopInv cuts a loop at its invariant: assert on entry, havoc the variables the
 // body assigns, assume invariant and guard, run the body once, assert the invariant again.
-func (ex *Exec) execLoopInv(s ast.Stmt, cond ast.Expr, body *ast.BlockStmt, post ast.Stmt, st *State, label string, invs []*Clause, havoc []string, nondet bool, pre func(bodySt *State)) *Flow {
+func (ex *Exec) execLoopInv(s ast.Stmt, cond ast.Expr, body *ast.BlockStmt, post ast.Stmt, st *State, label string, invs []*Clause, havoc []string, nondet bool, pre func(bodySt *State), synth *synthLoop) *Flow {
 	out := &Flow{}
 	fi := ex.prog.LoopFunc[s]
 	// type-check invariant expressions at a position inside the loop body
@@ -345,8 +372,17 @@ func (ex *Exec) execLoopInv(s ast.Stmt, cond ast.Expr, body *ast.BlockStmt, post
 	}
 	evalInv := func(s2 *State, kind string) {
 		for i, e := range exprs {
-			g := ex.evalBool(e, s2)
-			ex.assert(s2, kind+"."+itoa(ex.prog.LoopOrd[s])+"."+itoa(i), g, body.Lbrace, "invariant: "+invs[i].Text)
+			save := ex.curFocus
+			ex.curFocus = "inv." + itoa(ex.prog.LoopOrd[s]) + "." + itoa(i)
+			if kind == "loop.entry" {
+				ex.curFocus += ".entry"
+			}
+			// one obligation per top-level conjunct of the clause
+			for _, cj := range topConjuncts(e) {
+				g := ex.evalBool(cj, s2)
+				ex.assert(s2, kind+"."+itoa(ex.prog.LoopOrd[s])+"."+itoa(i), g, body.Lbrace, "invariant: "+invs[i].Text)
+			}
+			ex.curFocus = save
 		}
 	}
 	saveEntry := ex.loopEntry
@@ -423,6 +459,11 @@ func (ex *Exec) execLoopInv(s ast.Stmt, cond ast.Expr, body *ast.BlockStmt, post
 		}
 		if !found {
 			unsupported("havoc: no variable %s in scope", h)
+		}
+	}
+	if synth != nil {
+		for _, l := range synth.havoc {
+			hset[l] = l.Typ
 		}
 	}
 	// tmpl[l]: the entry value of l with a mark at every leaf the body may change
@@ -503,15 +544,22 @@ func (ex *Exec) execLoopInv(s ast.Stmt, cond ast.Expr, body *ast.BlockStmt, post
 	}
 	head := mkHead()
 	// assume invariant at loop head
-	for _, e := range exprs {
+	for i, e := range exprs {
 		ex.suppress++
 		g := ex.evalBool(e, head)
 		ex.suppress--
+		save := ex.curFocus
+		ex.curFocus = "inv." + itoa(ex.prog.LoopOrd[s]) + "." + itoa(i)
 		ex.assume(head, g)
+		ex.curFocus = save
 	}
 	c := ex.ts.True()
 	if cond != nil {
 		c = ex.evalBool(cond, head)
+	}
+	if synth != nil {
+		synth.head(head)
+		c = synth.cond(head)
 	}
 	if nondet {
 		// the loop may stop or continue at any head state (range over a symbolic slice)
@@ -546,6 +594,9 @@ func (ex *Exec) execLoopInv(s ast.Stmt, cond ast.Expr, body *ast.BlockStmt, post
 	if next != nil && post != nil {
 		next = ex.execStmt(post, next).Normal
 	}
+	if next != nil && synth != nil {
+		synth.post(next)
+	}
 	if next != nil {
 		ex.cover(next, "loop."+itoa(ex.prog.LoopOrd[s])+".body-end")
 		evalInv(next, "loop.preserved")
@@ -557,6 +608,45 @@ func (ex *Exec) execLoopInv(s ast.Stmt, cond ast.Expr, body *ast.BlockStmt, post
 		exit = nil
 	}
 	out.Normal = exit
+	return out
+}
+
+// topConjuncts splits a && b && (c && d) into its conjuncts; quantified conjuncts only (splitting
+// cheap scalar conjuncts would just multiply queries).
+func topConjuncts(e ast.Expr) []ast.Expr {
+	var out []ast.Expr
+	var walk func(e ast.Expr)
+	walk = func(e ast.Expr) {
+		switch x := e.(type) {
+		case *ast.ParenExpr:
+			walk(x.X)
+			return
+		case *ast.BinaryExpr:
+			if x.Op == token.LAND {
+				walk(x.X)
+				walk(x.Y)
+				return
+			}
+		}
+		out = append(out, e)
+	}
+	walk(e)
+	quant := 0
+	for _, c := range out {
+		has := false
+		ast.Inspect(c, func(n ast.Node) bool {
+			if id, ok := n.(*ast.Ident); ok && (id.Name == "forallAll" || id.Name == "existsAll") {
+				has = true
+			}
+			return !has
+		})
+		if has {
+			quant++
+		}
+	}
+	if quant < 2 {
+		return []ast.Expr{e}
+	}
 	return out
 }
 
